@@ -120,6 +120,30 @@ def handshake_qos2(ctx):
         out.append(Inst("HANDSHAKE-QOS2", "pubrel-after-good-pubrec", guarded, e.site(),
                         "PUBREL enqueue %s dominated by the Continue edge of the `?` over the PUBREC reason check" % ("is" if guarded else "is NOT"),
                         "after a failing PUBREC no PUBREL is ever sent"))
+    # ... and after a PUBREC with reason < 0x80 the PUBREL is always produced: no other way out of the function
+    for e in pubrel_enq:
+        for (d, s_) in dominating_edges(pb, e.inner_bb):
+            si = pb.switch_info(d)
+            if not si or si["kind"] != "discr" or si.get("adt") != "std::ops::ControlFlow" or pb.edge_value(d, s_) != [0]:
+                continue
+            at = pb.atoms(si["place"])
+            if not ({a[1] for a in at if a[0] == "closure"} & thr_bodies):
+                continue
+            # every exit reachable from the Continue edge without passing the enqueue
+            reach = pb.reachable_from(s_, avoid=[e.inner_bb])
+            leaks = [x for x in reach if pb.term(x)["k"] == "return" or (pb.term(x)["k"] == "call" and pb.term(x)["dest"]["l"] == 0 and not pb.term(x)["dest"]["p"])]
+            leaks = [x for x in leaks if any(st["k"] == "assign" and st["lhs"]["l"] == 0 for st in pb.blocks[x]["stmts"]) or pb.term(x)["k"] == "call"]
+            direct = []
+            for x in reach:
+                for st in pb.blocks[x]["stmts"]:
+                    if st["k"] == "assign" and st["lhs"]["l"] == 0 and not st["lhs"]["p"]:
+                        direct.append(x)
+                t_ = pb.term(x)
+                if t_["k"] == "call" and t_["dest"]["l"] == 0 and not t_["dest"]["p"]:
+                    direct.append(x)
+            out.append(Inst("HANDSHAKE-QOS2", "pubrel-always-after-good-pubrec", not direct, e.site(),
+                            "ways to leave publish() after a successful PUBREC without enqueueing the PUBREL: %s" % ([pb.site(x) for x in sorted(set(direct))] or "none"),
+                            "QoS 2 sends exactly one PUBREL after a PUBREC with reason < 0x80 (and only then completes on PUBCOMP)"))
     # PUBREL is produced only by the QoS 2 branch of publish(), behind the reason check
     n_src = 0
     for fn_ in ctx.facts.fns:
@@ -308,14 +332,16 @@ def adapter(ctx):
                     e = _symex_rv(b, st["rv"], 0)
                     ret = _poll_shape(e)
         if b.term(path[-1])["k"] == "return":
-            rows[(inner, item, pkt)] = ret
+            rows.setdefault((inner, item, pkt), set()).add(ret)
     want = {("Ready", "Some", "Publish"): "Ready(Some(from(publish)))", ("Ready", "None", None): "Ready(None)", ("Pending", None, None): "Pending"}
     for k, w in want.items():
-        got = rows.get(k)
-        out.append(Inst("ADAPTER", "inner=%s/%s/%s" % k, got == w, b.site(0), "returns %s" % got, w))
-    for k, got in rows.items():
-        if k not in want and got not in ("Ready(None)",):
-            out.append(Inst("ADAPTER", "inner=%s/%s/%s:unexpected" % k, False, b.site(0), "returns %s" % got, "Ready(None) for anything that is not a delivered PUBLISH"))
+        got = rows.get(k, set())
+        out.append(Inst("ADAPTER", "inner=%s/%s/%s" % k, got == {w}, b.site(0), "returns %s on the %d distinct result(s) of the paths with this inner outcome" % (sorted(map(str, got)), len(got)),
+                        "%s on every path (no field of the message decides whether it is yielded)" % w))
+    for k, gots in rows.items():
+        for got in sorted(map(str, gots)):
+            if k not in want and got not in ("Ready(None)",):
+                out.append(Inst("ADAPTER", "inner=%s/%s/%s:unexpected" % k, False, b.site(0), "returns %s" % got, "Ready(None) for anything that is not a delivered PUBLISH"))
     return out
 
 
@@ -500,6 +526,21 @@ def idalloc(ctx):
                 _collect_env_idx(b, t["ops"][0], pidx, set())
                 out.append(Inst("IDALLOC", "%s:unwrap-of-param" % short_ty(strip_generics(f["path"]).rsplit("::", 1)[0]), True, b.site(i),
                                 "NonZero::try_from(param %s).unwrap(): obligation passed to every caller (checked above)" % sorted(pidx), "discharged at the call sites"))
+    # the option setters hand the identifier to the builder unchanged (conversions only, no arithmetic)
+    for f_ in ctx.facts.find(r"client::opts::\w+Opts::<[^>]*>::(packet_identifier|subscription_identifier)$"):
+        b = ctx.world.body(f_["path"])
+        arith = []
+        for i in sorted(b.reach):
+            for st in b.blocks[i]["stmts"]:
+                if st["k"] == "assign" and st["rv"]["k"] == "bin" and st["rv"]["op"] in ("Rem", "Add", "Sub", "Mul", "Div", "BitAnd", "BitOr", "BitXor", "Shl", "Shr"):
+                    if any(a[0] == "param" and a[1] == 2 for a in b.rv_atoms(st["rv"])):
+                        arith.append("%s at %s:%d" % (st["rv"]["op"], b.fn["file"], st["line"]))
+            t = b.term(i)
+            if t["k"] == "call" and re.search(r"(::min|::max|::clamp|wrapping_\w+|saturating_\w+|checked_\w+|::rem_euclid)$", callee_name(t) or ""):
+                arith.append("%s at %s" % (short_ty(callee_name(t)), b.site(i)))
+        nm_ = short_ty(strip_generics(f_["path"]).rsplit("::", 1)[0]) + "::" + f_["name"]
+        out.append(Inst("IDALLOC", "%s:setter-preserves-value" % nm_, not arith, b.site(0), "arithmetic applied to the identifier inside the setter: %s" % (arith or "none"),
+                        "the allocated identifier reaches the packet unchanged (distinct counter values stay distinct)"))
     # I3 counter creation
     nb = ctx.body(r"client::context::Context::<[^>]*>::new$")
     init = []
@@ -559,6 +600,15 @@ def own(ctx):
         out.append(Inst("OWN", "arc:%s" % short_ty(ty), bool(re.search(r"atomic::Atomic(U16|U32|<u16>|<u32>)$", ty)), b.site(i), "Arc::new::<%s>" % ty, "Arc only around the atomic identifier counters"))
     out.append(Inst("OWN", "sender-never-cloned", not clones, clones[0][0].site(clones[0][1]) if clones else "src/", "clones of completion / stream senders: %s" % ([(st, b.site(i)) for b, i, st in clones] or "none"),
                     "exactly one owner per sender, so dropping the context drops it"))
+    closes = []
+    for f_ in ctx.facts.fns:
+        if not f_["file"].startswith("src/client/"):
+            continue
+        b = ctx.world.body(f_["path"])
+        for i, t in b.calls(r"mpsc::(Unbounded)?(Receiver|Sender)::(close|close_channel|disconnect)$"):
+            closes.append((b, i, callee_name(t)))
+    out.append(Inst("OWN", "no-explicit-close", not closes, closes[0][0].site(closes[0][1]) if closes else "src/client", "explicit channel close calls: %s" % ([(short_ty(n), b.site(i)) for b, i, n in closes] or "none"),
+                    "a subscription stream ends only when the context (its sender) is gone"))
     sess = ctx.facts.adt(SESSION)
     if not sess:
         raise AnchorLost("Session struct")
@@ -578,9 +628,21 @@ def own(ctx):
             prop = [x for x in res if x["cause"]["kind"] == "enqueue-failed" and body.dominates(e.inner_bb, x["bb"]) and x["try_bb"] is not None and _feeds(body, e.inner_bb, x["try_bb"])]
             out.append(Inst("OWN", "%s:enqueue-propagated@%s" % (name, len([o for o in out if o.key.startswith("OWN:%s:enqueue" % name)])), len(prop) == 1, e.site(),
                             "failed enqueue %s" % ("reaches `?`" if prop else "is ignored"), "fails immediately with ContextExited once the context is gone"))
+        res_exits = [x for x in exits(ctx, body) if x["kind"] == "residual" and x["try_bb"] is not None]
         for a in body.awaits():
             t = body.term(a["poll_bb"])
             st = (t["callee"].get("self_ty") or "") + " " + (t["callee"].get("resolved") or "")
+            if "oneshot::Receiver" in st:
+                # Canceled (context gone) must reach `?`, i.e. become ContextExited for the caller
+                pd = t["dest"]["l"]
+                prop = False
+                for x in res_exits:
+                    o = body.origin(body.term(x["try_bb"])["ops"][0], through_calls=False)
+                    if o[0] == "place" and o[1]["l"] == pd and body.dominates(a["ready_bb"], x["try_bb"]):
+                        prop = True
+                out.append(Inst("OWN", "%s:await-result-propagated@%s" % (name, len([o_ for o_ in out if o_.key.startswith("OWN:%s:await-result" % name)])), prop, body.site(a["poll_bb"]),
+                                "the receiver's result %s" % ("reaches `?` directly (Canceled -> ContextExited)" if prop else "is transformed before / instead of `?` (a cancelled receiver may be reported as success)"),
+                                "every operation still pending when the context is dropped completes with ContextExited"))
             ok = "oneshot::Receiver" in st
             out.append(Inst("OWN", "%s:await@%s" % (name, len([o for o in out if o.key.startswith("OWN:%s:await" % name)])), ok, body.site(a["poll_bb"]),
                             "awaits %s" % (short_ty(t["callee"].get("self_ty") or "?")), "handle operations await nothing but their own oneshot::Receiver"))
